@@ -224,6 +224,24 @@ fn header_cases(fx: &Fixture, st: &mut Stats, rng: &mut Rng, meta_lens: &[Option
                         }
                     }
                 }
+                // truncation of the *serialized* header: it must not parse to something an
+                // authorized key opens
+                if let (Some(bytes), true, true) = (ser(&header).ok(), gen_aad.is_none(), meta.as_ref().map_or(false, |m| m.len() <= 40)) {
+                    let usk = &fx.keys[0].1;
+                    for cut in 0..bytes.len() {
+                        st.bump("header_truncations");
+                        match de::<EncryptedHeader>(&bytes[..cut]) {
+                            Out::Err(_) => {}
+                            Out::Panic(m) => fail(st, "serialized-header-truncation-panics", format!("cut {cut}/{}: {m}", bytes.len())),
+                            Out::Ok(h2) => {
+                                let out = call(|| h2.decrypt(&fx.cc, usk, None));
+                                if matches!(out, Out::Ok(Some(_))) || out.is_panic() {
+                                    fail(st, "truncated-serialized-header-accepted", format!("cut {cut}/{} ({flavour}, metadata {:?}): {}", bytes.len(), ml, if out.is_panic() { out.describe() } else { "decrypts for an authorized key".to_string() }));
+                                }
+                            }
+                        }
+                    }
+                }
                 // truncation / alteration of the encrypted metadata
                 if let (Some(em), true) = (&header.encrypted_metadata, gen_aad.is_none()) {
                     let usk = &fx.keys[0].1;
